@@ -102,6 +102,45 @@ def _requeued_then_expired(ctx, gen):
             return
 
 
+def _full_buffer_reset_window(ctx, gen):
+    """ten messages are held when the link comes up; the connection is half-open (its first write fails, the message goes back for a
+    retry, the client resets the connection and connects again); another task sends an eleventh message k loop passes into all that.
+    It is refused for as long as ten unexpired messages are held - none of them has been written or discarded yet (the instant in which
+    the failed message is on its way back to the buffer is left out: O19)."""
+    import json
+    scripts = []
+    for k in range(0, 14):
+        for lat in (0, 1):
+            sc = [("net", "refuse"), ("lat", lat), ("open",), ("adv", 1)] + [("send", i, "ok", "idem") for i in range(1, 11)]
+            sc += [("failnext",), ("net", "accept"), ("adv", 15), ("turn", k), ("send", 11, "ok", "idem"), ("adv", 40)]
+            scripts.append(sc)
+    for sc, r in zip(scripts, sockcheck.run_scripts(scripts, gen=gen)):
+        if "error" in r:
+            raise RuntimeError("socket harness failed on %r: %s" % (sc, r["error"]))
+        ctx.case(("full-buffer-reset-window", gen, json.dumps(sc)))
+        held = set()
+        in_flight = False       # between the failing write and the disconnected notification the failed message is on its way back to the
+                                # buffer (in flight, O19): what is accepted in that instant is not judged
+        for l in r["obs"]:
+            w = l.split()
+            if w[0] == "writeFault":
+                in_flight = True
+            elif w[0] == "notify" and w[1] == "0":
+                in_flight = False
+            if w[0] == "accept":
+                if int(w[1]) == 11 and len(held) >= 10 and not in_flight:
+                    why = "an eleventh message was accepted while ten unexpired messages were held (%s), none of them written or discarded yet" % sorted(held)
+                    ctx.violation("C16:full-buffer-reset-window", "script %s: %s" % (json.dumps(sc), why), kind="history", monitor="c16", script=sc, gen=gen,
+                                  implementation_output=r["obs"], spec_verdict=why)
+                    return
+                held.add(int(w[1]))
+            elif w[0] == "wire":
+                held.discard(int(w[2]))
+            elif w[0] == "qdrop":
+                held.discard(int(w[1]))
+        ctx.count("full-buffer-reset-window:%s" % ("eleventh-refused" if any(l.startswith("reject 11 ") for l in r["obs"]) else "eleventh-accepted-after-flush"))
+
+
 def _nontrivial(script, r):
     return sum(1 for op in script if op[0] == "send") >= 2
 
@@ -121,6 +160,7 @@ def run(ctx, deep=False):
         # the buffer holds MORE than its nominal capacity when in-flight commands come back for a retry: nothing may fall off the other
         # end silently (overflow is explicit or it does not happen) - the scripts of C01's full-buffer family, judged for silent loss
         _requeued_then_expired(ctx, gen)
+        _full_buffer_reset_window(ctx, gen)
         from props import c01
         good = sockcheck.judge_family(ctx, "C16", c01._full_buffer_requeue(), ["c01a", "c01d"], gen=gen, nontrivial=_nontrivial)
         sockcheck.validate_against_model(ctx, good, "AT%d" % gen)
